@@ -329,11 +329,13 @@ fn c01_shl_nonneg_count() {
             assert!(f.get_num() as i128 == x << s);
         }
         Ok(Number::Integer(_)) => {
-            // exact result does not fit a fixnum (x != 0): either via fixnum!(i64) or via the
-            // dashu shift with the original operands
-            assert!(x != 0);
-            assert!(!small);
+            // the exact result does not fit a fixnum, or the count is >= the word size (then even
+            // 0 << s is computed by dashu and comes back as a bignum cell holding 0 - the value
+            // is right, the representation is not normalised, which the property does not ask):
+            // either via fixnum!(i64) or via the dashu shift with the original operands
+            assert!(!small || x == 0);
             if op_calls() == 0 {
+                assert!(x != 0);
                 assert!(from_calls() == 1);
                 assert!(s < 64 && from_arg() == x << s);
             } else {
@@ -368,6 +370,12 @@ fn sibling_rec(l: Number, r: Number, _a: &mut Arena) -> Result<Number, MachineSt
 #[kani::proof]
 #[kani::unwind(10)]
 #[kani::stub(under_model, under_model_yes)]
+#[kani::stub(crate::machine::machine_state::MachineState::evaluation_error, st_ms_eval_error)]
+#[kani::stub(crate::machine::machine_state::MachineState::error_form, st_ms_error_form)]
+#[kani::stub(zero_divisor_eval_error, st_zero)]
+#[kani::stub(undefined_eval_error, st_undef)]
+#[kani::stub(numerical_type_error, st_type)]
+#[kani::stub(<dashu::integer::IBig as std::convert::From<i64>>::from, rec_from_i64)]
 #[kani::stub(arcu::epoch_counters::with_thread_local_epoch_counter, st_epoch)]
 #[kani::stub(shl, sibling_rec)]
 fn c01_shr_negative_count_forwards() {
@@ -385,6 +393,12 @@ fn c01_shr_negative_count_forwards() {
 #[kani::proof]
 #[kani::unwind(10)]
 #[kani::stub(under_model, under_model_yes)]
+#[kani::stub(crate::machine::machine_state::MachineState::evaluation_error, st_ms_eval_error)]
+#[kani::stub(crate::machine::machine_state::MachineState::error_form, st_ms_error_form)]
+#[kani::stub(zero_divisor_eval_error, st_zero)]
+#[kani::stub(undefined_eval_error, st_undef)]
+#[kani::stub(numerical_type_error, st_type)]
+#[kani::stub(<dashu::integer::IBig as std::convert::From<i64>>::from, rec_from_i64)]
 #[kani::stub(arcu::epoch_counters::with_thread_local_epoch_counter, st_epoch)]
 #[kani::stub(shr, sibling_rec)]
 fn c01_shl_negative_count_forwards() {
